@@ -366,6 +366,9 @@ def run(repo, rep):
     rep.clause("C08-r", "the single weight buffer is as large as the largest depth slice over all cores: max_range_bytes is the maximum of the per-parity slice sizes (double_buffer_sizes), not of single (core, slice) ranges")
     rep.clause("C08-s", "an encoded stream / record set is shared only under exact equality of the whole compression configuration: the cache hit in the compressor and the flash de-duplication in the linear allocator compare the configuration objects with ==, no component, no tolerance")
     rep.clause("C08-t", "the kernel axes reversed for a transpose convolution are the axes the same function multiplies as the kernel size (H and W of the HWIO volume)")
+    rep.clause("C08-u", "per-group slices of per-channel quantisation vectors are taken under the dimensionality test of the member they slice (grouped convolutions pack their own channels' scales)")
+    rep.clause("C08-v", "a weight buffer is sized from the encoded tensor it receives (size argument of Scheduler.buffer_tensor derives from its source tensor): the recorded double-buffer sizes bound every slice that occupies the buffer")
+    rule_round10(repo, rep)
     rule_round9(repo, rep)
     rule_max_range_bytes(repo, rep)
     rule_round5(repo, rep)
@@ -655,3 +658,72 @@ def rule_round9(repo, rep):
     got = set(got) if isinstance(got, (tuple, list)) else ({got} if isinstance(got, int) else None)
     rep.check(got == axes, "C08-t", site, f"`{norm(flips[0])}` reverses the axes {sorted(axes)} that `kernel_size = {norm(ks[0].value)}` treats as kernel height and width",
               f"`{norm(flips[0])}` reverses axes {sorted(got) if got else '?'}; the volume is HWIO here (kernel size = shape[{sorted(axes)[0]}] * shape[{sorted(axes)[1]}]): the IFM channel axis is reversed instead of a kernel axis")
+
+
+def rule_round10(repo, rep):
+    """(u) convert_conv_groups splits per-channel quantisation vectors per group: every slice `<q>.<m>[..., a:b]` is taken under the
+    dimensionality test of the *same* member (`np.ndim(<q>.<m>) > 0`): a vector member guarded by another member's test stays whole when that
+    other member is a scalar, and every group then packs group 0's multipliers.
+    (v) a weight buffer is sized from the encoded tensor it will receive: the size argument of Scheduler.buffer_tensor derives from its first
+    argument (locals inlined), never from another tensor's storage."""
+    go = repo.mod("tflite_graph_optimiser")
+    fn = go.func("convert_conv_groups")
+    site = "ethosu/vela/tflite_graph_optimiser.py:convert_conv_groups"
+    n = 0
+    for st in ast.walk(fn):
+        if not (isinstance(st, ast.Assign) and isinstance(st.value, ast.Subscript) and isinstance(st.value.value, ast.Attribute) and st.value.value.attr in ("scale_f32", "zero_point")):
+            continue
+        src = str(norm(st.value.value))
+        n += 1
+        tests = []
+        cur = st
+        while cur is not fn and cur is not None:
+            pp = go.parents.get(cur)
+            if isinstance(pp, ast.If) and cur in pp.body:
+                tests.append(str(norm(pp.test)))
+            cur = pp
+        ok = any(t in (f"np.ndim({src}) > 0", f"numpy.ndim({src}) > 0", f"np.ndim({src}) >= 1") for t in tests)
+        rep.check(ok, "C08-u", site, f"`{str(norm(st))[:90]}` is taken under the dimensionality test of `{src}`",
+                  f"guards are {tests}: with per-channel `{src.rsplit('.', 1)[1]}` and a scalar for the tested member the vector is not split - every group convolution keeps the whole vector and packs group 0's (multiplier, shift) records")
+    if n < 4:
+        raise AnalysisError(f"convert_conv_groups: {n} per-group slices of quantisation members found")
+    sm = repo.mod("scheduler")
+    n = 0
+    for q, f in sm.functions.items():
+        defs_ = {}
+        for a in ast.walk(f):
+            if isinstance(a, ast.Assign) and len(a.targets) == 1 and isinstance(a.targets[0], ast.Name):
+                defs_.setdefault(a.targets[0].id, []).append(a)
+        for c in ast.walk(f):
+            if not (isinstance(c, ast.Call) and isinstance(c.func, ast.Attribute) and c.func.attr == "buffer_tensor" and str(norm(c.func.value)) == "self" and len(c.args) >= 3):
+                continue
+            n += 1
+            src = str(norm(c.args[0]))
+            seen, roots = set(), set()
+            anc = set()
+            cur_ = c
+            while cur_ is not None:
+                anc.add(id(cur_))
+                cur_ = sm.parents.get(cur_)
+            # definitions that lexically dominate the call: earlier statements of a block that encloses it
+            single = {k_: [a_.value for a_ in v_ if a_.lineno < c.lineno and id(sm.parents.get(a_)) in anc] for k_, v_ in defs_.items()}
+            single = {k_: v_ for k_, v_ in single.items() if v_}
+
+            def collect(e, depth=0):
+                for x in ast.walk(e):
+                    if isinstance(x, ast.Name) and isinstance(x.ctx, ast.Load):
+                        if x.id in single and depth < 4 and x.id != src:
+                            if x.id not in seen:
+                                seen.add(x.id)
+                                for d_ in single[x.id]:
+                                    collect(d_, depth + 1)
+                        else:
+                            roots.add(x.id)
+
+            collect(c.args[2])
+            purpose_names = {c.args[1].id} if isinstance(c.args[1], ast.Name) else set()
+            extra = sorted(r for r in roots if r not in ({src, "len", "min", "max", "idx", "TensorSubPurpose", "round_up", "int"} | purpose_names))
+            rep.check(not extra, "C08-v", f"ethosu/vela/scheduler.py:{q}", f"buffer size `{str(norm(c.args[2]))[:60]}` derives from the buffered tensor `{src}`",
+                      f"also derives from {extra}: the buffer is sized from another tensor - a depth slice of `{src}` larger than that does not fit the buffer the DMA fills (double_buffer_sizes no longer bound the slice)")
+    if n < 3:
+        raise AnalysisError(f"Scheduler.buffer_tensor: {n} calls found")
